@@ -923,6 +923,11 @@ def order(ctx):
                 continue
             n += 1
             bad = []
+            if side == 'write':
+                for root2 in [root] + ([ln] if ln is not None else []):
+                    for fb in F.family(root2.key):
+                        for c in fb.calls(r'^std::iter::Iterator::(filter|filter_map|skip|take|take_while|skip_while|step_by|nth|last|find|map_while)$'):
+                            bad.append(c)
             if side == 'read':
                 for fb in F.family(root.key):
                     for c in fb.calls(r'LinkedList::<[^>]*>::push_front$', r'VecDeque::<[^>]*>::push_front$'):
@@ -944,3 +949,12 @@ def order(ctx):
                       'chains) no longer round-trip' % (side, name, bad[0].name if bad else '', bad[0].ln if bad else 0),
                       'no sort / rev', root.where())
     ctx.floor(n, 40 if _ONLY[0] is None else 2, 'write / read bodies')
+
+
+@rule('C13', 'signature-compat', configs=('default',))
+def signature_compat(ctx):
+    """'Objects serialized by the pinned release keep deserializing to working objects': a user key carries a KMAC over
+    (markers, right, scalar [, ML-KEM key]); changing what sign() absorbs makes every key issued before the change fail verify
+    on its next refresh.  The transcript shape is therefore part of the format (C08.mac-covers)."""
+    from . import c08
+    c08.mac_covers(ctx)
